@@ -5,6 +5,8 @@ go 1.26.8
 require (
 	github.com/deckarep/golang-set/v2 v2.6.0
 	github.com/karagenc/socket.io-go v0.0.0
+	github.com/madflojo/testcerts v1.2.0
+	github.com/quic-go/webtransport-go v0.8.0
 	nhooyr.io/websocket v1.8.11
 	pgregory.net/rapid v1.3.0
 )
@@ -17,7 +19,6 @@ require (
 	github.com/mattn/go-isatty v0.0.20 // indirect
 	github.com/quic-go/qpack v0.4.0 // indirect
 	github.com/quic-go/quic-go v0.45.2 // indirect
-	github.com/quic-go/webtransport-go v0.8.0 // indirect
 	github.com/xiegeo/coloredgoroutine v0.1.1 // indirect
 	golang.org/x/crypto v0.25.0 // indirect
 	golang.org/x/exp v0.0.0-20240719175910-8a7402abbf56 // indirect
